@@ -193,7 +193,7 @@ class Differ:
                 rhs_val = self._eyamlproc.decrypt_eyaml(rhs)
                 rhs = rhs.replace("\r", "").replace(" ", "")
 
-        if lhs_val == rhs_val:
+        if Differ._same_data(lhs_val, rhs_val):
             self._diffs.append(
                 DiffEntry(DiffActions.SAME, path, lhs, rhs, **kwargs)
             )
@@ -324,7 +324,7 @@ class Differ:
             data=syn_pairs)
 
         for (lidx, lele, ridx, rele) in syn_pairs:
-            if lele is None:
+            if lidx is None:
                 next_path = path + "[{}]".format(ridx)
                 diff_action = DiffActions.ADD
                 opposite_val = None
@@ -347,7 +347,7 @@ class Differ:
                     diff_action, next_path, opposite_val, rele,
                     lhs_parent=lhs, lhs_iteration=lidx,
                     rhs_parent=rhs, rhs_iteration=ridx))
-            elif rele is None:
+            elif ridx is None:
                 next_path = path + "[{}]".format(lidx)
                 self._diffs.append(
                     DiffEntry(
@@ -388,23 +388,25 @@ class Differ:
             prefix="Differ::_diff_arrays_of_scalars:  ",
             data=rhs)
 
+        diff_deeply = kwargs.pop("diff_deeply", True)
+        positional = kwargs.pop("positional", False)
         diff_mode = self.config.array_diff_mode(node_coord)
-        if diff_mode is ArrayDiffOpts.VALUE:
+        if diff_mode is ArrayDiffOpts.VALUE and not positional:
             self._diff_synced_lists(path, lhs, rhs)
             return
 
         idx = 0
-        diff_deeply = kwargs.pop("diff_deeply", True)
-        for (lele, rele) in zip_longest(lhs, rhs):
+        missing = object()  # a null is a legitimate element, not an absence
+        for (lele, rele) in zip_longest(lhs, rhs, fillvalue=missing):
             next_path = path + "[{}]".format(idx)
             idx += 1
-            if lele is None:
+            if lele is missing:
                 self._diffs.append(
                     DiffEntry(
                         DiffActions.ADD, next_path, None, rele,
                         lhs_parent=lhs, lhs_iteration=idx,
                         rhs_parent=rhs, rhs_iteration=idx))
-            elif rele is None:
+            elif rele is missing:
                 self._diffs.append(
                     DiffEntry(
                         DiffActions.DELETE, next_path, lele, None,
@@ -416,10 +418,13 @@ class Differ:
                     lhs_parent=lhs, lhs_iteration=idx,
                     rhs_parent=rhs, rhs_iteration=idx,
                     parentref=idx)
-            elif lele != rele:
+            else:
                 self._diffs.append(
                     DiffEntry(
-                        DiffActions.CHANGE, next_path, lele, rele,
+                        (DiffActions.SAME
+                         if Differ._same_data(lele, rele)
+                         else DiffActions.CHANGE),
+                        next_path, lele, rele,
                         lhs_parent=lhs, lhs_iteration=idx,
                         rhs_parent=rhs, rhs_iteration=idx,
                         parentref=idx))
@@ -451,11 +456,13 @@ class Differ:
         diff_mode = self.config.aoh_diff_mode(node_coord)
         if diff_mode is AoHDiffOpts.POSITION:
             self._diff_arrays_of_scalars(
-                path, lhs, rhs, node_coord, diff_deeply=False)
+                path, lhs, rhs, node_coord, diff_deeply=False,
+                positional=True)
             return
         if diff_mode is AoHDiffOpts.DPOS:
             self._diff_arrays_of_scalars(
-                path, lhs, rhs, node_coord, diff_deeply=True)
+                path, lhs, rhs, node_coord, diff_deeply=True,
+                positional=True)
             return
         if diff_mode is AoHDiffOpts.VALUE:
             self._diff_synced_lists(path, lhs, rhs)
@@ -483,14 +490,14 @@ class Differ:
             data=syn_pairs)
 
         for (lidx, lele, ridx, rele) in syn_pairs:
-            if lele is None:
+            if lidx is None:
                 next_path = path + "[{}]".format(ridx)
                 self._diffs.append(
                     DiffEntry(
                         DiffActions.ADD, next_path, None, rele,
                         lhs_parent=lhs, lhs_iteration=lidx,
                         rhs_parent=rhs, rhs_iteration=ridx))
-            elif rele is None:
+            elif ridx is None:
                 next_path = path + "[{}]".format(lidx)
                 self._diffs.append(
                     DiffEntry(
@@ -509,7 +516,7 @@ class Differ:
                     # KEY-based comparisons
                     next_path = path + "[{}]".format(lidx)
                     diff_action = (DiffActions.SAME
-                                  if lele == rele
+                                  if Differ._same_data(lele, rele)
                                   else DiffActions.CHANGE)
                     self._diffs.append(
                         DiffEntry(diff_action, next_path, lele, rele,
@@ -553,6 +560,9 @@ class Differ:
             else:
                 # This list is an Array-of-Arrays or a simple list of Scalars
                 self._diff_arrays_of_scalars(path, lhs, rhs, node_coord)
+        else:
+            # Every LHS element has been deleted
+            self._purge_document(path, lhs)
 
     # pylint: disable=too-many-locals
     def _diff_sets(
@@ -697,7 +707,12 @@ class Differ:
             or (lhs_is_scalar and rhs_is_scalar)
         )
         if same_types:
-            if lhs_is_dict:
+            if (not lhs_is_scalar) and len(lhs) < 1 and len(rhs) < 1:
+                # Two empty containers have no children to compare, yet they
+                # are themselves the same node
+                self._diffs.append(
+                    DiffEntry(DiffActions.SAME, path, lhs, rhs, **kwargs))
+            elif lhs_is_dict:
                 self._diff_dicts(path, lhs, rhs)
             elif lhs_is_list:
                 self._diff_lists(path, lhs, rhs, **kwargs)
@@ -706,8 +721,18 @@ class Differ:
             else:
                 self._diff_scalars(path, lhs, rhs, **kwargs)
         else:
+            # A null or an empty container has no children to report, yet it
+            # is itself deleted or added.
+            entry_count = len(self._diffs)
             self._purge_document(path, lhs)
+            if entry_count == len(self._diffs):
+                self._diffs.append(
+                    DiffEntry(DiffActions.DELETE, path, lhs, None, **kwargs))
+            entry_count = len(self._diffs)
             self._add_everything(path, rhs)
+            if entry_count == len(self._diffs):
+                self._diffs.append(
+                    DiffEntry(DiffActions.ADD, path, None, rhs, **kwargs))
 
     @classmethod
     def synchronize_lists_by_value(
@@ -739,7 +764,7 @@ class Differ:
             del_index = -1
             for reduced_idx, rhs_pair in enumerate(rhs_reduced):
                 (_, rhs_ele) = rhs_pair
-                if rhs_ele == lhs_ele:
+                if Differ._same_data(rhs_ele, lhs_ele):
                     del_index = reduced_idx
                     break
 
@@ -792,14 +817,25 @@ class Differ:
             Optional[int], Optional[Any], Optional[int], Optional[Any]
         ]] = []
         for lhs_idx, lhs_ele in enumerate(lhs):
-            if not key_attr in lhs_ele:
-                # Impossible to match this LHS record to any RHS record
+            if not isinstance(lhs_ele, dict) or not key_attr in lhs_ele:
+                # Without an identity key, this LHS record can match only an
+                # identical RHS record
                 self.logger.debug(
                     "LHS record has no identity key, {}, for record at {}:"
                     .format(key_attr, path),
                     data=lhs_ele,
                     prefix="Differ::synchronize_lods_by_key:  ")
-                syn_pairs.append((lhs_idx, lhs_ele, None, None))
+                same_index = -1
+                for reduced_idx, rhs_pair in enumerate(rhs_reduced):
+                    if Differ._same_data(lhs_ele, rhs_pair[1]):
+                        same_index = reduced_idx
+                        break
+                if same_index > -1:
+                    (rhs_original_idx, rhs_ele) = rhs_reduced.pop(same_index)
+                    syn_pairs.append(
+                        (lhs_idx, lhs_ele, rhs_original_idx, rhs_ele))
+                else:
+                    syn_pairs.append((lhs_idx, lhs_ele, None, None))
                 continue
 
             del_index = -1
@@ -825,7 +861,7 @@ class Differ:
                         data=rhs_ele,
                         prefix="Differ::synchronize_lods_by_key:  ")
 
-                if not use_key in rhs_ele:
+                if not isinstance(rhs_ele, dict) or not use_key in rhs_ele:
                     # Impossible to match this RHS record to any LHS record
                     continue
 
@@ -844,6 +880,26 @@ class Differ:
             syn_pairs.append((None, None, rhs_original_idx, rhs_ele))
 
         return syn_pairs
+
+    @staticmethod
+    def _same_data(lhs: Any, rhs: Any) -> bool:
+        """Indicate whether two nodes hold the same data (Hash key order and
+        the order of Set members being irrelevant)."""
+        if isinstance(lhs, dict) and isinstance(rhs, dict):
+            return (len(lhs) == len(rhs)
+                    and all(key in rhs and Differ._same_data(val, rhs[key])
+                            for key, val in lhs.items()))
+        if (isinstance(lhs, (list, tuple))
+                and isinstance(rhs, (list, tuple))):
+            return (len(lhs) == len(rhs)
+                    and all(Differ._same_data(lele, rele)
+                            for lele, rele in zip(lhs, rhs)))
+        if isinstance(lhs, (dict, list, tuple)) or isinstance(
+                rhs, (dict, list, tuple)):
+            return False
+        if isinstance(lhs, bool) != isinstance(rhs, bool):
+            return False
+        return bool(lhs == rhs)
 
     @classmethod
     def _get_key_indicies(
